@@ -21,16 +21,21 @@ Definition last_name (ch : list (string * sq)) : option string :=
 Definition refs (q : query) : list string :=
   flat_map (fun c => names_sq (snd c)) (q_ctes q) ++ names_sq (q_main q).
 
-Definition view_refs (q : query) (views : registry) : list string :=
-  filter (fun n => is_some (assoc n views)) (refs q).
+(** [so] ("skip own"): a name that is a CTE of the query itself is not a view reference (the repaired
+    session.sql); without it every table reference named like a view is one (the hijack defect). *)
+Definition view_refs (so : bool) (q : query) (views : registry) : list string :=
+  filter (fun n => is_some (assoc n views) && negb (so && is_some (assoc n (q_ctes q)))) (refs q).
 
 (** ctes_to_add: the chain's CTEs whose name is not yet in the WITH list *)
 Definition add_chain (acc ch : list (string * sq)) : list (string * sq) :=
   acc ++ filter (fun c => negb (mem (fst c) (map fst acc))) ch.
 
-Definition spliced_ctes (q : query) (views : registry) : list (string * sq) :=
+Definition spliced_ctes (so : bool) (q : query) (views : registry) : list (string * sq) :=
   fold_left (fun acc v => match assoc v views with Some d => add_chain acc (d_chain d) | None => acc end)
-            (view_refs q views) (q_ctes q).
+            (view_refs so q views) (q_ctes q).
+(** the CTEs the splice adds behind the query's own *)
+Definition added_ctes (so : bool) (q : query) (views : registry) : list (string * sq) :=
+  skipn (List.length (q_ctes q)) (spliced_ctes so q views).
 
 Definition target (views : registry) (n : string) : string :=
   match assoc n views with
@@ -38,12 +43,19 @@ Definition target (views : registry) (n : string) : string :=
   | None => n
   end.
 
-Definition rho_of (q : query) (views : registry) : string -> string :=
-  fun n => if mem n (view_refs q views) then target views n else n.
+Definition rho_of (so : bool) (q : query) (views : registry) : string -> string :=
+  fun n => if mem n (view_refs so q views) then target views n else n.
 
-Definition splice (q : query) (views : registry) : query :=
-  let rho := rho_of q views in
-  mkQuery (map (fun c => (fst c, ren_sq rho (snd c))) (spliced_ctes q views)) (ren_sq rho (q_main q)).
+Definition ren_ctes (rho : string -> string) (l : list (string * sq)) : list (string * sq) :=
+  map (fun c => (fst c, ren_sq rho (snd c))) l.
+
+(** [uo] ("user references only"): only the table references of the user's query are retargeted (the
+    repaired session.sql); without it every equal-looking reference is, also inside the added CTEs
+    (modelled without aliases: every reference of that name). *)
+Definition splice (so uo : bool) (q : query) (views : registry) : query :=
+  let rho := rho_of so q views in
+  let A := added_ctes so q views in
+  mkQuery (ren_ctes rho (q_ctes q) ++ (if uo then A else ren_ctes rho A)) (ren_sq rho (q_main q)).
 
 (** the frozen meaning of a registered view: its last CTE, resolved in its own chain *)
 Definition view_env (g : nat) (views : registry) (base : env) : env :=
@@ -63,14 +75,15 @@ Definition opt_sq_eqb (a b : option sq) : bool :=
          the user's own CTE is hijacked);
     (c2) for each referenced view: its chain is not empty; every CTE of its chain is, in the spliced
          WITH list, bound to that very definition (neither a user CTE nor another view's CTE of the
-         same name shadows it); its bodies mention no spliced view name, and any name they leave
-         free is also free in the spliced WITH list;
+         same name shadows it); when the splice also rewrites the added CTEs ([uo] = false) its bodies
+         mention no spliced view name, otherwise no user CTE carries the name of a chain CTE; and any
+         name the bodies leave free is also free in the spliced WITH list;
     (c3) a name of the user's query that is neither a view nor a user CTE is not captured by a CTE
          that the splice adds. *)
-Definition no_capture (q : query) (views : registry) : bool :=
-  let vs := view_refs q views in
+Definition no_capture (so uo : bool) (q : query) (views : registry) : bool :=
+  let vs := view_refs so q views in
   let U := q_ctes q in
-  let C := spliced_ctes q views in
+  let C := spliced_ctes so q views in
   forallb (fun c => negb (mem (fst c) vs)) U
   && forallb (fun v =>
        match assoc v views with
@@ -81,9 +94,9 @@ Definition no_capture (q : query) (views : registry) : bool :=
                 match assoc (fst c) ch with
                 | Some body =>
                     opt_sq_eqb (assoc (fst c) C) (Some body)
-                    && forallb (fun m => negb (mem m vs)
-                                         && (is_some (assoc m ch) || negb (is_some (assoc m C))))
-                               (names_sq body)
+                    && (if uo then negb (is_some (assoc (fst c) U))
+                        else forallb (fun m => negb (mem m vs)) (names_sq body))
+                    && forallb (fun m => is_some (assoc m ch) || negb (is_some (assoc m C))) (names_sq body)
                 | None => false
                 end) ch
        | None => true
@@ -110,21 +123,29 @@ Proof.
   destruct Hin as [->|Hin]; [rewrite String.eqb_refl in Ek; discriminate | auto].
 Qed.
 
-Lemma view_refs_spec q views n :
-  In n (view_refs q views) <-> In n (refs q) /\ is_some (assoc n views) = true.
-Proof. unfold view_refs. apply filter_In. Qed.
+Lemma view_refs_spec so q views n :
+  In n (view_refs so q views) <->
+  In n (refs q) /\ is_some (assoc n views) = true /\ (so && is_some (assoc n (q_ctes q))) = false.
+Proof.
+  unfold view_refs. rewrite filter_In. rewrite andb_true_iff, negb_true_iff. tauto.
+Qed.
+
+Lemma assoc_ren_ctes rho n l : assoc n (ren_ctes rho l) = option_map (ren_sq rho) (assoc n l).
+Proof. apply assoc_map_snd. Qed.
 
 Section SpliceProof.
+  Variables so uo : bool.
   Variable q : query.
   Variable views : registry.
   Variable base : env.
-  Hypothesis NC : no_capture q views = true.
+  Hypothesis NC : no_capture so uo q views = true.
 
-  Let vs := view_refs q views.
+  Let vs := view_refs so q views.
   Let U := q_ctes q.
-  Let C := spliced_ctes q views.
-  Let rho := rho_of q views.
-  Let C' := map (fun c => (fst c, ren_sq rho (snd c))) C.
+  Let C := spliced_ctes so q views.
+  Let A := added_ctes so q views.
+  Let rho := rho_of so q views.
+  Let C' := ren_ctes rho U ++ (if uo then A else ren_ctes rho A).
 
   Lemma nc1 : forall n body, assoc n U = Some body -> mem n vs = false.
   Proof.
@@ -138,8 +159,8 @@ Section SpliceProof.
     is_some (last_name (d_chain d)) = true /\
     forall c body, assoc c (d_chain d) = Some body ->
       assoc c C = Some body /\
-      forall m, In m (names_sq body) ->
-        mem m vs = false /\ (assoc m (d_chain d) = None -> assoc m C = None).
+      (if uo then assoc c U = None else forall m, In m (names_sq body) -> mem m vs = false) /\
+      forall m, In m (names_sq body) -> assoc m (d_chain d) = None -> assoc m C = None.
   Proof.
     intros v d Hv Hd. unfold no_capture in NC.
     apply andb_true_iff in NC. destruct NC as [H12 _]. apply andb_true_iff in H12. destruct H12 as [_ H2].
@@ -147,13 +168,16 @@ Section SpliceProof.
     apply andb_true_iff in H2. destruct H2 as [Hl Hc]. split; [exact Hl|].
     intros c body Hcb. rewrite forallb_forall in Hc.
     specialize (Hc _ (assoc_In _ _ _ Hcb)). cbn [fst] in Hc. rewrite Hcb in Hc.
-    apply andb_true_iff in Hc. destruct Hc as [He Hn]. split.
+    apply andb_true_iff in Hc. destruct Hc as [Hc Hn]. apply andb_true_iff in Hc. destruct Hc as [He Hu].
+    split; [|split].
     - fold C in He. destruct (assoc c C) as [b'|]; simpl in He; [|discriminate].
       apply sq_eqb_eq in He. congruence.
-    - intros m Hm. rewrite forallb_forall in Hn. specialize (Hn m Hm).
-      apply andb_true_iff in Hn. destruct Hn as [Hn1 Hn2]. apply negb_true_iff in Hn1. split; [exact Hn1|].
-      intro Hnone. rewrite Hnone in Hn2. simpl in Hn2. fold C in Hn2.
-      destruct (assoc m C); simpl in Hn2; [discriminate | reflexivity].
+    - destruct uo.
+      + fold U in Hu. destruct (assoc c U); simpl in Hu; [discriminate | reflexivity].
+      + intros m Hm. rewrite forallb_forall in Hu. specialize (Hu m Hm). apply negb_true_iff in Hu. exact Hu.
+    - intros m Hm Hnone. rewrite forallb_forall in Hn. specialize (Hn m Hm).
+      rewrite Hnone in Hn. simpl in Hn. fold C in Hn.
+      destruct (assoc m C); simpl in Hn; [discriminate | reflexivity].
   Qed.
 
   Lemma nc3 : forall n, In n (refs q) -> mem n vs = false -> assoc n U = None -> assoc n C = None.
@@ -165,24 +189,32 @@ Section SpliceProof.
   Qed.
 
   (** the user's CTEs stay in front of the spliced WITH list *)
-  Lemma spliced_prefix : exists A, C = U ++ A.
+  Lemma spliced_prefix : C = U ++ A.
   Proof.
-    unfold C, spliced_ctes. fold U.
-    generalize (view_refs q views) as l. generalize U as acc.
-    intros acc l; revert acc. induction l as [|v l IH]; intro acc; simpl.
-    - exists []. rewrite app_nil_r. reflexivity.
-    - destruct (assoc v views) as [d|]; [|apply IH].
-      destruct (IH (add_chain acc (d_chain d))) as [A HA]. unfold add_chain in HA.
-      rewrite <- app_assoc in HA. eexists; exact HA.
+    assert (H : forall l acc, exists X, fold_left (fun acc v => match assoc v views with
+                 | Some d => add_chain acc (d_chain d) | None => acc end) l acc = acc ++ X).
+    { induction l as [|v l IH]; intro acc; simpl.
+      - exists []. rewrite app_nil_r. reflexivity.
+      - destruct (assoc v views) as [d|]; [|apply IH].
+        destruct (IH (add_chain acc (d_chain d))) as [X HX]. unfold add_chain in HX.
+        rewrite <- app_assoc in HX. eexists; exact HX. }
+    destruct (H (view_refs so q views) U) as [X HX].
+    unfold A, added_ctes. fold C. fold U. unfold C, spliced_ctes. fold U. rewrite HX.
+    rewrite skipn_app, skipn_all, Nat.sub_diag. reflexivity.
   Qed.
 
-  Lemma user_cte_in_C n body : assoc n U = Some body -> assoc n C = Some body.
-  Proof.
-    intro H. destruct spliced_prefix as [A HA]. rewrite HA, assoc_app, H. reflexivity.
-  Qed.
+  Lemma assoc_C n : assoc n C = match assoc n U with Some b => Some b | None => assoc n A end.
+  Proof. rewrite spliced_prefix. apply assoc_app. Qed.
 
-  Lemma assoc_C' n : assoc n C' = option_map (ren_sq rho) (assoc n C).
-  Proof. unfold C'. apply assoc_map_snd. Qed.
+  Lemma assoc_C'_user n body : assoc n U = Some body -> assoc n C' = Some (ren_sq rho body).
+  Proof. intro H. unfold C'. rewrite assoc_app, assoc_ren_ctes, H. reflexivity. Qed.
+
+  Lemma assoc_C'_none n : assoc n C = None -> assoc n C' = None.
+  Proof.
+    rewrite assoc_C. intro H. unfold C'. rewrite assoc_app, assoc_ren_ctes.
+    destruct (assoc n U); [discriminate|]. cbn [option_map].
+    destruct uo; [exact H | rewrite assoc_ren_ctes, H; reflexivity].
+  Qed.
 
   (** inside the spliced WITH list a view's chain means what it means on its own *)
   Lemma chain_in_scope v d : In v vs -> assoc v views = Some d ->
@@ -190,26 +222,34 @@ Section SpliceProof.
       cte_env f C' base c = cte_env f (d_chain d) base c.
   Proof.
     intros Hv Hd. destruct (nc2 v d Hv Hd) as [_ H2].
+    assert (Hbody : forall c body, assoc c (d_chain d) = Some body -> assoc c C' = Some body).
+    { intros c body Eb. destruct (H2 c body Eb) as [HC [Hu _]].
+      destruct uo eqn:Euo.
+      - unfold C'. rewrite assoc_app, assoc_ren_ctes, Hu. cbn [option_map].
+        rewrite assoc_C, Hu in HC. exact HC.
+      - assert (Hfix : ren_sq rho body = body).
+        { apply ren_sq_fix. intros m Hm. unfold rho, rho_of. fold vs. rewrite (Hu m Hm). reflexivity. }
+        rewrite assoc_C in HC. unfold C'. rewrite assoc_app, !assoc_ren_ctes.
+        destruct (assoc c U) as [b|].
+        + cbn [option_map]. inversion HC; subst. rewrite Hfix. reflexivity.
+        + cbn [option_map]. rewrite HC. cbn [option_map]. rewrite Hfix. reflexivity. }
     induction f as [|f IH]; intros c Hc.
     - destruct (assoc c (d_chain d)) as [body|] eqn:Eb; [|discriminate].
-      destruct (H2 c body Eb) as [HC _]. cbn [cte_env]. rewrite assoc_C', HC, Eb. reflexivity.
+      cbn [cte_env]. rewrite (Hbody c body Eb), Eb. reflexivity.
     - destruct (assoc c (d_chain d)) as [body|] eqn:Eb; [|discriminate].
-      destruct (H2 c body Eb) as [HC Hnames]. cbn [cte_env]. rewrite assoc_C', HC, Eb. cbn [option_map].
-      assert (Hfix : ren_sq rho body = body).
-      { apply ren_sq_fix. intros m Hm. destruct (Hnames m Hm) as [Hmv _].
-        unfold rho, rho_of. fold vs. rewrite Hmv. reflexivity. }
-      rewrite Hfix. apply eval_sq_ext. intros m Hm.
+      destruct (H2 c body Eb) as [_ [_ Hfree]]. cbn [cte_env]. rewrite (Hbody c body Eb), Eb.
+      apply eval_sq_ext. intros m Hm.
       destruct (assoc m (d_chain d)) as [bm|] eqn:Em.
       + apply IH. rewrite Em. reflexivity.
-      + destruct (Hnames m Hm) as [_ Hfree]. specialize (Hfree Em).
-        destruct f; cbn [cte_env]; rewrite assoc_C', Hfree, Em; reflexivity.
+      + pose proof (assoc_C'_none m (Hfree m Hm Em)) as HN.
+        destruct f; cbn [cte_env]; rewrite HN, Em; reflexivity.
   Qed.
 
   Lemma view_lookup n : In n (refs q) -> mem n vs = true -> assoc n U = None ->
     forall f, cte_env f C' base (rho n) = view_env f views base n.
   Proof.
     intros Hn Hv Hu f. apply mem_In in Hv. pose proof Hv as Hv0.
-    apply view_refs_spec in Hv. destruct Hv as [_ Hs].
+    apply view_refs_spec in Hv. destruct Hv as [_ [Hs _]].
     destruct (assoc n views) as [d|] eqn:Ed; [|discriminate].
     destruct (nc2 n d Hv0 Ed) as [Hl _].
     destruct (last_name (d_chain d)) as [l|] eqn:El; [|discriminate].
@@ -222,10 +262,12 @@ Section SpliceProof.
   Proof.
     intros Hn Hv Hu f g. split.
     - unfold rho, rho_of. fold vs. rewrite Hv.
-      pose proof (nc3 n Hn Hv Hu) as HC.
-      destruct f; cbn [cte_env]; rewrite assoc_C', HC; reflexivity.
+      pose proof (assoc_C'_none n (nc3 n Hn Hv Hu)) as HC.
+      destruct f; cbn [cte_env]; rewrite HC; reflexivity.
     - unfold view_env. destruct (assoc n views) as [d|] eqn:Ed; [|reflexivity].
-      exfalso. assert (In n vs) by (apply view_refs_spec; split; [exact Hn | rewrite Ed; reflexivity]).
+      exfalso. assert (In n vs).
+      { apply view_refs_spec. split; [exact Hn|]. split; [rewrite Ed; reflexivity|].
+        fold U. rewrite Hu. apply andb_false_r. }
       apply mem_In in H. fold vs in H. congruence.
   Qed.
 
@@ -249,13 +291,13 @@ Section SpliceProof.
     induction f as [|f IH]; intros n r Hn E.
     - destruct (assoc n U) as [body|] eqn:Eu.
       + pose proof (nc1 n body Eu) as Hv. unfold rho, rho_of in E. fold vs in E. rewrite Hv in E.
-        cbn [cte_env] in E. rewrite assoc_C', (user_cte_in_C n body Eu) in E. discriminate.
+        cbn [cte_env] in E. rewrite (assoc_C'_user n body Eu) in E. discriminate.
       + cbn [cte_env]. rewrite Eu. destruct (mem n vs) eqn:Hv.
         * rewrite <- (view_lookup n Hn Hv Eu). exact E.
         * destruct (base_lookup n Hn Hv Eu 0%nat 0%nat) as [H1 H2]. rewrite H2, <- H1. exact E.
     - destruct (assoc n U) as [body|] eqn:Eu.
       + pose proof (nc1 n body Eu) as Hv. unfold rho, rho_of in E. fold vs in E. rewrite Hv in E.
-        cbn [cte_env] in E. rewrite assoc_C', (user_cte_in_C n body Eu) in E. cbn [option_map] in E.
+        cbn [cte_env] in E. rewrite (assoc_C'_user n body Eu) in E.
         cbn [cte_env]. rewrite Eu.
         apply (eval_ren_l rho (cte_env f C' base)); [|exact E].
         intros m r' Hm Em.
@@ -278,7 +320,7 @@ Section SpliceProof.
     - cbn [cte_env] in E. destruct (assoc n U) as [body|] eqn:Eu.
       + pose proof (nc1 n body Eu) as Hv. unfold rho, rho_of. fold vs. rewrite Hv.
         replace (S f + g)%nat with (S (f + g)) by lia.
-        cbn [cte_env]. rewrite assoc_C', (user_cte_in_C n body Eu). cbn [option_map].
+        cbn [cte_env]. rewrite (assoc_C'_user n body Eu).
         apply (eval_ren_r rho (cte_env f U (view_env g views base))); [|exact E].
         intros m r' Hm Em. apply IH; [eapply body_refs; eauto | exact Em].
       + destruct (mem n vs) eqn:Hv.
@@ -291,9 +333,9 @@ Section SpliceProof.
   Proof. intro H. unfold refs. apply in_or_app. right. exact H. Qed.
 
   Theorem splice_sound_sect : forall r,
-    Run (splice q views) base r <-> exists g, Run q (view_env g views base) r.
+    Run (splice so uo q views) base r <-> exists g, Run q (view_env g views base) r.
   Proof.
-    intro r. unfold Run, run. cbn [splice q_ctes q_main]. fold rho. fold C. fold C'. fold U. split.
+    intro r. unfold Run, run. cbn [splice q_ctes q_main]. fold rho. fold A. fold U. fold C'. split.
     - intros [f E]. exists f, f.
       apply (eval_ren_l rho (cte_env f C' base)); [|exact E].
       intros m r' Hm Em. apply splice_fwd; [apply main_refs; exact Hm | exact Em].
@@ -304,10 +346,10 @@ Section SpliceProof.
 End SpliceProof.
 
 (** session.sql's splice is a sound substitution: for every query tree (joins, sub-queries, aggregates,
-    CTEs, any nesting), every registry and every base environment *)
-Theorem splice_sound : forall q views base r, no_capture q views = true ->
-  (Run (splice q views) base r <-> exists g, Run q (view_env g views base) r).
-Proof. intros q views base r NC. apply splice_sound_sect. exact NC. Qed.
+    CTEs, any nesting), every registry and every base environment, in both variants of the splice *)
+Theorem splice_sound : forall so uo q views base r, no_capture so uo q views = true ->
+  (Run (splice so uo q views) base r <-> exists g, Run q (view_env g views base) r).
+Proof. intros so uo q views base r NC. apply (splice_sound_sect so uo q views base NC). Qed.
 
 (** the views' meanings are monotone in the fuel, so "exists g" can be read as "for all large g" *)
 Lemma Run_view_env_mono q views base r g g' :
